@@ -175,6 +175,18 @@ func scenCodecWire(x *Ctx) {
 			for j := 0; j < ne; j++ {
 				req.Entries = append(req.Entries, &raft.LogEntry{Index: rU64(r), Term: rU64(r), Data: rBytes(r, ne < 5), EntryType: raft.LogEntryType(r.Intn(3))})
 			}
+			if r.Intn(10) == 0 {
+				// a batch of several large entries: 1.2 - 3.6 MiB in total, below the transport's message limit
+				req.Entries = nil
+				ne = 2 + r.Intn(5)
+				per := (1200*1024 + r.Intn(2400*1024)) / ne
+				for j := 0; j < ne; j++ {
+					b := make([]byte, per+r.Intn(1000))
+					r.Read(b)
+					req.Entries = append(req.Entries, &raft.LogEntry{Index: rU64(r), Term: rU64(r), Data: b, EntryType: raft.LogEntryType(r.Intn(3))})
+				}
+				c.kinds["AE-large-batch"]++
+			}
 			mu.Lock()
 			repAE = raft.AppendEntriesResponse{Term: rU64(r), Success: r.Intn(2) == 0, Index: rU64(r)}
 			want := repAE
